@@ -30,7 +30,9 @@ class Contract:
                  result="none", effects=None, exc_ensures=(), entry=None, assumed=False, note="", ghost=None,
                  canaries=(), covers=(), max_unroll=8, use=None, label="", ghost_params=None, split_cases=(),
                  replay=None, search=None, timeout=None, order=None, gen=None,
-                 ascii_strings=(), ascii_hints=(), steps=(), model=None):
+                 ascii_strings=(), ascii_hints=(), steps=(), model=None, opaque=None, when=None):
+        self.when = when
+        self.opaque = dict(opaque or {})
         self.model = model
         self.steps = _l(steps)
         self.ascii_strings = list(ascii_strings)
@@ -200,8 +202,13 @@ class VerifCtx:
         self.specfns[name] = SpecFn(name, sorts, unfold, native, doc)
         return self.specfns[name]
 
-    def contract_for_call(self, qual, caller):
+    def contract_for_call(self, qual, caller, args=None):
         c = self.contracts.get(qual)
+        if c is None and args is not None:
+            for k, cand in self.contracts.items():
+                if cand.qual == qual and cand.label and cand.when is not None and cand.when(args):
+                    c = cand
+                    break
         if c is None:
             return None
         if qual in caller.inline or "*" in caller.inline:
